@@ -422,6 +422,11 @@ def fam_faults(rng, n, dist):
         a.local_file(b"keep.txt", b"do not touch")
         a.open((220,))
         session_body(a, rng, dist, rng.choice([0, 1, 3]), faults=True)
+        if a.connected and rng.random() < 0.6:
+            # a get that is turned down locally (existing target / uncreatable name) shortly before the server misbehaves:
+            # the error handling that follows must not touch the files named then
+            a.get(b"/pub/report.bin", rng.choice([b"keep.txt", b"keep.txt", b"nodir/sub/x.bin"]))
+            dist.add("fault:preceded-by-locally-refused-get")
         if a.connected:
             k = rng.choice(["close-after-reply", "reset-after-reply", "421", "garbage", "eof-instead-of-reply", "dead-data-port",
                             "refused-open"])
